@@ -3,6 +3,8 @@ package main
 import (
 	"context"
 	"fmt"
+	"os"
+	"runtime"
 	"sort"
 	"strings"
 	"sync"
@@ -666,4 +668,167 @@ func (h *hookCtx) Done() <-chan struct{} {
 		h.fire()
 	}
 	return h.Context.Done()
+}
+
+// a divider that breaks its contract after some calls: the discipline must report the error,
+// terminate (v2: close its output after the releases) and leave no goroutine behind
+func (b *bb) scenarioFaulty() {
+	before := b.fails()
+	c := b.randPrioCfg()
+	v1 := b.r.Intn(2) == 0
+	after := int32(3 + b.r.Intn(12))
+	var calls int32
+	kind := []string{"over", "under"}[b.r.Intn(2)] // an all-zero result is exempt (C15: "non-zero added total")
+	corrupt := func(prios []uint, dist map[uint]uint) {
+		switch kind {
+		case "over":
+			dist[prios[0]] += 1 + uint(b.r.Intn(2))
+		case "under":
+			// keep the result non-zero: an all-zero total is exempt from the property
+			total := uint(0)
+			for _, v := range dist {
+				total += v
+			}
+			if total >= 2 {
+				for _, p := range prios {
+					if dist[p] > 0 {
+						dist[p]--
+						return
+					}
+				}
+			}
+			dist[prios[0]] += 3
+		}
+	}
+	desc := fmt.Sprintf("v1=%v kind=%s after=%d %s", v1, kind, after, c)
+	stop := make(chan struct{})
+	var produced sync.WaitGroup
+	chans := map[uint]chan int{}
+	inputs := map[uint]<-chan int{}
+	for _, p := range c.prios {
+		ch := make(chan int, c.caps[p])
+		chans[p], inputs[p] = ch, ch
+	}
+	startProducers := func() {
+		for _, p := range c.prios {
+			produced.Add(1)
+			go func(p uint) {
+				defer produced.Done()
+				for i := 0; ; i++ {
+					select {
+					case chans[p] <- int(p)*100000 + i:
+					case <-stop:
+						return
+					}
+				}
+			}(p)
+		}
+	}
+	if !v1 {
+		base := divider.Fair
+		if !c.fair {
+			base = divider.Rate
+		}
+		dv := func(prios []uint, q uint, dist map[uint]uint) {
+			base(prios, q, dist)
+			if atomic.AddInt32(&calls, 1) > after && q > 0 && len(prios) > 0 {
+				corrupt(prios, dist)
+			}
+		}
+		dsc, err := p2.New(p2.Opts[int]{Divider: dv, HandlersQuantity: c.H, Inputs: inputs})
+		if err != nil {
+			// the constructor's own probing calls hit the fault: also a correct outcome
+			b.note("faulty", desc, before)
+			return
+		}
+		startProducers()
+		closed := make(chan struct{})
+		go func() {
+			defer close(closed)
+			// handlers release concurrently: a consumer that reads the output only after its
+			// previous Release returned would be fewer than HandlersQuantity handlers
+			var rel sync.WaitGroup
+			for it := range dsc.Output() {
+				rel.Add(1)
+				go func(p uint) { defer rel.Done(); dsc.Release(p) }(it.Priority)
+			}
+			rel.Wait()
+		}()
+		select {
+		case e, ok := <-dsc.Err():
+			if !ok || e == nil {
+				b.fail("C15 faulty v2: the divider broke its contract (%s) but Err() yielded %v (open=%v) (%s)", kind, e, ok, desc)
+			}
+		case <-time.After(10 * time.Second):
+			b.fail("C15 faulty v2: the divider broke its contract (%s) but no error was reported within 10s (%s)", kind, desc)
+			if os.Getenv("BB_DEBUG") != "" {
+				buf := make([]byte, 1<<20)
+				os.Stderr.Write(buf[:runtime.Stack(buf, true)])
+			}
+		}
+		select {
+		case <-closed:
+		case <-time.After(10 * time.Second):
+			b.fail("C15 faulty v2: the output was not closed within 10s after the divider error (%s)", desc)
+		}
+		close(stop)
+		produced.Wait()
+		b.leakProbe("divider error of v2 priority")
+	} else {
+		base := p1.FairDivider
+		if !c.fair {
+			base = p1.RateDivider
+		}
+		dv := func(prios []uint, q uint, dist map[uint]uint) map[uint]uint {
+			out := base(prios, q, dist)
+			if atomic.AddInt32(&calls, 1) > after && q > 0 && len(prios) > 0 {
+				corrupt(prios, out)
+			}
+			return out
+		}
+		ctx, cancel := context.WithCancel(context.Background())
+		defer cancel()
+		output := make(chan p1.Prioritized[int], 1)
+		feedback := make(chan uint, 1)
+		dsc, err := p1.New(p1.Opts[int]{Ctx: ctx, Divider: dv, Feedback: feedback, HandlersQuantity: c.H, Inputs: inputs, Output: output})
+		if err != nil {
+			b.note("faulty", desc, before)
+			return
+		}
+		startProducers()
+		go func() {
+			for {
+				select {
+				case it := <-output:
+					go func(p uint) {
+						select {
+						case feedback <- p:
+						case <-stop:
+						}
+					}(it.Priority)
+				case <-stop:
+					return
+				}
+			}
+		}()
+		select {
+		case e, ok := <-dsc.Err():
+			if !ok || e == nil {
+				b.fail("C15 faulty v1: the divider broke its contract (%s) but Err() yielded %v (open=%v) (%s)", kind, e, ok, desc)
+			}
+		case <-time.After(10 * time.Second):
+			b.fail("C15 faulty v1: the divider broke its contract (%s) but no error was reported within 10s (%s)", kind, desc)
+		}
+		ret := make(chan struct{})
+		go func() { dsc.Stop(); close(ret) }()
+		select {
+		case <-ret:
+		case <-time.After(5 * time.Second):
+			b.fail("C16 faulty v1: Stop() did not return within 5s after a divider error (%s)", desc)
+		}
+		close(stop)
+		produced.Wait()
+		b.leakProbe("divider error of v1 priority")
+	}
+	b.note("faulty", desc, before)
 }
